@@ -1,6 +1,8 @@
 """Determinism self-test: every check, the same seeds, two fresh interpreters
-under different PYTHONHASHSEED values (and a third run for the batch path with
-another worker count); the per-run event-log digests must be identical.
+under different PYTHONHASHSEED values, the second one running the indices in
+reverse order (a run may not depend on what its process ran before - workers
+of a batch and a replay in a fresh interpreter see different pasts); the
+per-run event-log digests must be identical.
 
 usage: ./check selftest [--runs N] [--seed S] [ids...]
 exit 0 = identical, 1 = a divergence (printed), 2 = a run failed.
@@ -18,7 +20,8 @@ IDS = ['C08', 'C09', 'C10', 'C12', 'C13', 'C17', 'C20']
 
 def _digests(cid, runs, seed, hashseed):
     env = dict(os.environ, PYTHONHASHSEED=str(hashseed),
-               VERIF_SEED=str(seed))
+               VERIF_SEED=str(seed),
+               VERIF_DIGEST_ORDER='reverse' if hashseed else 'forward')
     p = subprocess.run([os.path.join(HERE, 'check'), cid, '--digests',
                         '--runs', str(runs), '--seed', str(seed)],
                        env=env, capture_output=True, text=True, timeout=1800)
@@ -60,7 +63,8 @@ def main(argv):
                 rc = max(rc, 1)
             else:
                 print('{}: {} runs, digests identical under PYTHONHASHSEED '
-                      '0 and 4242 (set digest {})'.format(cid, len(a), h))
+                      '0 (forward) and 4242 (reverse order) (set digest {})'
+                      .format(cid, len(a), h))
     return rc
 
 
